@@ -190,6 +190,22 @@ def _gen_vrp(stratum, rng):
         case["interval"] = rng.randint(1, 5)
         case["stop_at"] = rng.choice([None, 1, 1, 2, 3, 5, 10])
         case["max_iter"] = max(case["max_iter"], 20)
+    if rng.random() < 0.12:
+        # customers standing exactly at the depot whose load fills a vehicle: used vehicles with a route of length 0
+        # (a vehicle is "used" when it serves someone, not when it drives), with the vehicle term switched on
+        cs = list(case["customers"])
+        dx, dy = case["depot"]
+        cap = case["capacity"] if case["capacity"] != INF else 10
+        case["capacity"] = cap
+        for i in rng.sample(range(len(cs)), min(len(cs), rng.randint(1, 2))):
+            c = cs[i]
+            cs[i] = (c[0], dx, dy, cap, 0, INF, c[6], 1)
+        case["customers"] = cs
+        if isinstance(case["vehicles"], int):
+            case["vehicles"] = max(case["vehicles"], 3)
+        w = dict(case.get("weights") or {})
+        w["vehicle_weight"] = rng.choice([10.0, 50.0, 100.0])
+        case["weights"] = w
     return case
 
 
